@@ -37,6 +37,16 @@ fn ctor_virt(r: &mut Rep, x: u64) {
             }
         }
     }
+    // in-contract use of the unchecked constructor, zero(), is_null(), pointer round trip
+    if c {
+        let u = unsafe { VirtAddr::new_unsafe(x) };
+        if u.as_u64() != x || u != VirtAddr::new_truncate(x) || u.is_null() != (x == 0) || u.as_ptr::<u8>() as u64 != x || u.as_mut_ptr::<u64>() as u64 != x || VirtAddr::from_ptr(x as *const u8).as_u64() != x {
+            r.viol("C03|VirtAddr::new_unsafe/is_null/as_ptr/from_ptr|changes-a-valid-value", &case, "");
+        }
+    }
+    if VirtAddr::zero().as_u64() != 0 {
+        r.viol("C03|VirtAddr::zero|not-zero", &case, "");
+    }
     let t = VirtAddr::new_truncate(x).as_u64();
     if t != sext48(x) {
         r.viol("C03|VirtAddr::new_truncate|not-sign-extension-of-low-48", &case, &format!("{:#x}", t));
@@ -98,6 +108,15 @@ fn ctor_phys(r: &mut Rep, x: u64) {
             }
         }
     }
+    if c {
+        let u = unsafe { PhysAddr::new_unsafe(x) };
+        if u.as_u64() != x || u != PhysAddr::new_truncate(x) || u.is_null() != (x == 0) {
+            r.viol("C03|PhysAddr::new_unsafe/is_null|changes-a-valid-value", &case, "");
+        }
+    }
+    if PhysAddr::zero().as_u64() != 0 {
+        r.viol("C03|PhysAddr::zero|not-zero", &case, "");
+    }
     let t = PhysAddr::new_truncate(x).as_u64();
     if t != x & ((1u64 << 52) - 1) {
         r.viol("C03|PhysAddr::new_truncate|not-low-52-bits", &case, &format!("{:#x}", t));
@@ -150,6 +169,13 @@ fn page_start<S: PageSize>(v: u64) -> Page<S> {
 fn frame_start<S: PageSize>(v: u64) -> PhysFrame<S> {
     PhysFrame::<S>::containing_address(PhysAddr::new(v))
 }
+/// `op=` on a variable that stays observable after a caught panic (catch_unwind is safe code): whatever the
+/// variable holds afterwards is a value "obtainable through the safe API" and must be valid too.
+fn assign<T: Copy>(x: T, f: impl FnOnce(&mut T)) -> T {
+    let mut y = x;
+    let _ = catch(|| f(&mut y));
+    y
+}
 fn pg<S: PageSize>(code: u8, v: u64, n: u64) -> Option<u64> {
     let p = page_start::<S>(v);
     let q = match code {
@@ -160,6 +186,8 @@ fn pg<S: PageSize>(code: u8, v: u64, n: u64) -> Option<u64> {
         4 => Step::backward_checked(p, n as usize)?,
         5 => Step::forward(p, n as usize),
         6 => Step::backward(p, n as usize),
+        7 => assign(p, |y| *y += n),
+        8 => assign(p, |y| *y -= n),
         _ => unreachable!(),
     };
     Some(q.start_address().as_u64())
@@ -170,6 +198,8 @@ fn fr<S: PageSize>(code: u8, v: u64, n: u64) -> Option<u64> {
         0 => p,
         1 => p + n,
         2 => p - n,
+        3 => assign(p, |y| *y += n),
+        4 => assign(p, |y| *y -= n),
         _ => unreachable!(),
     };
     Some(q.start_address().as_u64())
@@ -185,23 +215,15 @@ pub fn apply(virt: bool, v: u64, a: Act) -> Option<u64> {
                 1 => x.align_down(1u64 << a.1).as_u64(),
                 2 => (x + a.1).as_u64(),
                 3 => (x - a.1).as_u64(),
-                4 => {
-                    let mut y = x;
-                    y += a.1;
-                    y.as_u64()
-                }
-                5 => {
-                    let mut y = x;
-                    y -= a.1;
-                    y.as_u64()
-                }
+                4 => assign(x, |y| *y += a.1).as_u64(),
+                5 => assign(x, |y| *y -= a.1).as_u64(),
                 6 => Step::forward_checked(x, a.1 as usize)?.as_u64(),
                 7 => Step::backward_checked(x, a.1 as usize)?.as_u64(),
                 8 => Step::forward(x, a.1 as usize).as_u64(),
                 9 => Step::backward(x, a.1 as usize).as_u64(),
-                10..=16 => pg::<Size4KiB>(a.0 - 10, v, a.1)?,
-                20..=26 => pg::<Size2MiB>(a.0 - 20, v, a.1)?,
-                30..=36 => pg::<Size1GiB>(a.0 - 30, v, a.1)?,
+                10..=18 => pg::<Size4KiB>(a.0 - 10, v, a.1)?,
+                20..=28 => pg::<Size2MiB>(a.0 - 20, v, a.1)?,
+                30..=38 => pg::<Size1GiB>(a.0 - 30, v, a.1)?,
                 40 => VirtAddr::from_ptr(x.as_ptr::<u8>()).as_u64(),
                 41 => {
                     // a page built from this address' own indices
@@ -218,19 +240,11 @@ pub fn apply(virt: bool, v: u64, a: Act) -> Option<u64> {
                 1 => x.align_down(1u64 << a.1).as_u64(),
                 2 => (x + a.1).as_u64(),
                 3 => (x - a.1).as_u64(),
-                4 => {
-                    let mut y = x;
-                    y += a.1;
-                    y.as_u64()
-                }
-                5 => {
-                    let mut y = x;
-                    y -= a.1;
-                    y.as_u64()
-                }
-                10..=12 => fr::<Size4KiB>(a.0 - 10, v, a.1)?,
-                20..=22 => fr::<Size2MiB>(a.0 - 20, v, a.1)?,
-                30..=32 => fr::<Size1GiB>(a.0 - 30, v, a.1)?,
+                4 => assign(x, |y| *y += a.1).as_u64(),
+                5 => assign(x, |y| *y -= a.1).as_u64(),
+                10..=14 => fr::<Size4KiB>(a.0 - 10, v, a.1)?,
+                20..=24 => fr::<Size2MiB>(a.0 - 20, v, a.1)?,
+                30..=34 => fr::<Size1GiB>(a.0 - 30, v, a.1)?,
                 _ => unreachable!(),
             })
         }
@@ -268,7 +282,7 @@ fn actions(virt: bool, small: bool) -> Vec<Act> {
     };
     for base in [10u8, 20, 30] {
         v.push(Act(base, 0));
-        let top = if virt { 6 } else { 2 };
+        let top = if virt { 8 } else { 4 };
         for c in 1..=top {
             for &n in &counts {
                 v.push(Act(base + c, n));
